@@ -18,10 +18,14 @@
     two-step protocol: the sequence read off a run that starts with an empty ledger (the [allocs] service on
     [mstate0 base]) IS [spec_allocs pw t v], hence equals what any later run under presets enters.
 
+    [C06_ledger_protocol_total] ([has_type t v] only): on a well-typed value both steps of the protocol succeed -
+    [lower_flat] / [store] are total from ANY allocator state (bump or presets, arbitrary addresses) - and the
+    re-run enters exactly the sequence predicted from [mstate0 base].
+
     [C06_ledger_blocks_wellformed] (0 < pw, bump allocator): every new ledger entry (p, s, a) has 0 < s, 0 < a,
     p mod a = 0, lies inside [next st, next st'), and the new entries are pairwise disjoint. *)
 From Coq Require Import List ZArith NArith Bool.
-From WB Require Import Wit.Ty Canon.Spec Canon.SpecRoundtripLedger.
+From WB Require Import Wit.Ty Canon.Spec Canon.SpecRoundtripLedger Canon.SpecRoundtripLedgerTotal.
 Import ListNotations.
 Local Open Scope N_scope.
 
@@ -71,6 +75,34 @@ Proof. exact ledger_blocks_wellformed. Qed.
 
 Print Assumptions C06_ledger_prediction_sound.
 Print Assumptions C06_ledger_blocks_wellformed.
+
+Theorem C06_ledger_protocol_total :
+  forall (pw : N) (t : ty) (v : val), has_type t v = true ->
+  (* flat form: the prediction run (empty ledger, bump from [base]) and the re-run from ANY state [st] (e.g. with the
+     guest allocator's addresses as presets) both succeed, and the re-run enters exactly the predicted sequence *)
+  (forall base st, exists cs0 st0' cs st',
+      lower_flat pw t v (mstate0 base) = Some (cs0, st0') /\
+      lower_flat pw t v st = Some (cs, st') /\
+      let pred := map (fun '(_, s, a) => (s, a)) (rev (allocs st0')) in
+      exists new,
+        allocs st' = (new ++ allocs st)%list /\
+        map (fun '(_, s, a) => (s, a)) (rev new) = pred /\
+        presets st' = skipn (length pred) (presets st) /\
+        ((length pred <= length (presets st))%nat ->
+           map (fun '(p, _, _) => p) (rev new) = firstn (length pred) (presets st))) /\
+  (* memory form *)
+  (forall base a0 a st, exists st0' st',
+      store pw t v a0 (mstate0 base) = Some st0' /\
+      store pw t v a st = Some st' /\
+      let pred := map (fun '(_, s, a) => (s, a)) (rev (allocs st0')) in
+      exists new,
+        allocs st' = (new ++ allocs st)%list /\
+        map (fun '(_, s, a) => (s, a)) (rev new) = pred /\
+        presets st' = skipn (length pred) (presets st) /\
+        ((length pred <= length (presets st))%nat ->
+           map (fun '(p, _, _) => p) (rev new) = firstn (length pred) (presets st))).
+Proof. exact ledger_protocol_total. Qed.
+Print Assumptions C06_ledger_protocol_total.
 
 (** Non-vacuity: concrete runs, bump allocator AND a concrete preset list, both pointer widths. *)
 Definition c06_t1 : ty :=
@@ -129,6 +161,9 @@ Example C06_ex2_mem_matches_pred_4 :
   | Some (l, ps) => (map (fun '(_, s, a) => (s, a)) l, ps)
   | None => ([], [0])
   end = (spec_allocs 4 c06_t2 c06_v2, []).
+Proof. vm_compute. reflexivity. Qed.
+
+Example C06_ex_hyps : has_type c06_t1 c06_v1 && has_type c06_t2 c06_v2 = true.
 Proof. vm_compute. reflexivity. Qed.
 
 (* ===== end of the spec-ledger block ===== *)
